@@ -200,11 +200,12 @@ func runConcSim(env *RunEnv) {
 			return s.sub
 		}
 		var cancels []context.CancelFunc
+		var releases []chan struct{}
 		nops := 3 + t.Choose("cc-nops", 8)
 		val := 0
 		sim.Logf("cfg conc-sim scenario=topics ops=%d", nops)
 		for i := 0; i < nops && len(viol) == 0; i++ {
-			op := t.Weighted("cc-top-op", []int{25, 25, 20, 20, 10})
+			op := t.Weighted("cc-top-op", []int{25, 25, 20, 20, 10, 15})
 			switch op {
 			case 0: // subscribe (waits while a publish is in flight)
 				sl := t.Choose("cc-sendlast", 2) == 1
@@ -251,6 +252,30 @@ func runConcSim(env *RunEnv) {
 				nact++
 				as.spawn(fmt.Sprintf("close#%d.%d", k, i), func() { getSub(s).Close() })
 				sim.Logf("  close #%d", k)
+			case 5: // a consumer that reads the subscription's channel until it is closed
+				if len(subs) == 0 {
+					continue
+				}
+				k := t.Choose("cc-which", len(subs))
+				s := subs[k]
+				if getSub(s) == nil {
+					continue
+				}
+				slow := t.Choose("cc-consume-slow", 3) // takes n values, then is busy until released
+				busy := make(chan struct{})
+				releases = append(releases, busy)
+				nact++
+				as.spawn(fmt.Sprintf("consume#%d.%d", k, i), func() {
+					ch := getSub(s).Channel()
+					n := 0
+					for range ch {
+						n++
+						if n == slow {
+							<-busy // busy elsewhere: not receiving for a while
+						}
+					}
+				})
+				sim.Logf("  consume #%d until closed (busy after %d values)", k, slow)
 			case 4: // Handle with a callback that fails on its n-th value
 				failAt := 1 + t.Choose("cc-failat", 3)
 				ctx, cancel := context.WithCancel(context.Background())
@@ -287,6 +312,10 @@ func runConcSim(env *RunEnv) {
 				}
 			}
 			as.quiesce()
+		}
+		// busy consumers come back to their channel: it must have been closed
+		for _, r := range releases {
+			close(r)
 		}
 		b := as.quiesce()
 		if len(b) > 0 {
